@@ -100,6 +100,15 @@ def run(rep):
         text, lex = compose(seq, rng.random() < 0.4, rng, rng.choice([" ", " ", "   ", "glue", "glue"]))
         if len(text) <= 250:
             lines.append((text, lex, rng.choice(["en", "tr"])))
+    # lines of more than 2^16 characters: offsets are character positions of the line, however long it is
+    for filler, tail in (("a" * 70000, [("12", "Number"), ("+", "Operator"), ("345", "Number")]), ("ğü" * 33000, [("7", "Number"), ("*", "Operator"), ("2", "Number")]),
+                         ("zorp " * 14000, [("0x1F", "Number"), ("-", "Operator"), ("3", "Number")])):
+        text, lex = filler.rstrip(), []
+        for w, kind in tail:
+            text += " "
+            lex.append([len(text), len(text) + len(w), kind])
+            text += w
+        lines.append((text, lex, "en"))
     cases = []
     for b in range(0, len(lines), 50):
         chunk = lines[b:b + 50]
